@@ -50,10 +50,13 @@ def base_env():
     return e
 
 
-def kani_cmd(ob, target_dir):
-    cmd = ["cargo", "kani", "-Z", "stubbing", "-Z", "unstable-options",
-           "-Z", "concrete-playback", "--concrete-playback=print",
-           "--harness", ob["harness"], "--exact", "--target-dir", target_dir]
+def kani_cmd(ob, target_dir, playback=False):
+    # Kani's own --concrete-playback mode regenerates the program with per-byte nondet draws and
+    # multiplies time and memory (measured 47 s / 1.4 GB vs 344 s / 19 GB on one query). The
+    # runner instead re-runs the *same* cbmc command that Kani logged (--verbose) with --trace on
+    # the failed property and reads the nondet draws out of the JSON trace (extract_trace_values).
+    cmd = ["cargo", "kani", "-Z", "stubbing", "-Z", "unstable-options", "--verbose"]
+    cmd += ["--harness", ob["harness"], "--exact", "--target-dir", target_dir]
     if ob.get("solver"):
         cmd += ["--solver", ob["solver"]]
     cbmc = ["--unwind", str(ob.get("unwind", 8))]
@@ -61,6 +64,125 @@ def kani_cmd(ob, target_dir):
         cbmc += ["--unwindset", ",".join("%s:%d" % kv for kv in ob["unwindset"].items())]
     cmd += ["--cbmc-args"] + cbmc
     return cmd
+
+
+SCALAR_BYTES = {"u8": 1, "i8": 1, "bool": 1, "u16": 2, "i16": 2, "u32": 4, "i32": 4, "u64": 8, "i64": 8,
+                "usize": 8, "isize": 8, "u128": 16, "i128": 16}
+
+
+def _find_trace(x):
+    if isinstance(x, dict):
+        if "trace" in x and isinstance(x["trace"], list):
+            return x["trace"]
+        for v in x.values():
+            r = _find_trace(v)
+            if r:
+                return r
+    elif isinstance(x, list):
+        for v in x:
+            r = _find_trace(v)
+            if r:
+                return r
+    return None
+
+
+def _val_bytes(v, nbytes):
+    b = v.get("binary")
+    if b is not None and set(b) <= set("01"):
+        n = int(b, 2) if b else 0
+        return list(n.to_bytes(max(nbytes, (len(b) + 7) // 8), "little"))[:nbytes]
+    d = v.get("data")
+    if d in ("true", "TRUE"):
+        return [1] + [0] * (nbytes - 1)
+    if d in ("false", "FALSE"):
+        return [0] * nbytes
+    try:
+        n = int(str(d).rstrip("ulUL"))
+        return list((n % (1 << (8 * nbytes))).to_bytes(nbytes, "little"))
+    except Exception:
+        return [0] * nbytes
+
+
+def extract_trace_values(trace):
+    """One byte vector per `nd::any::<T>()` call of the harness, in execution order.
+    Elements the slicer removed (irrelevant to the failure) are zero."""
+    vals = []
+    cur = None  # (type string, dict index->bytes / scalar bytes)
+    depth_name = None
+    for st in trace:
+        t = st.get("stepType")
+        fn = st.get("function", {})
+        name = fn.get("displayName", "") if isinstance(fn, dict) else ""
+        if t == "function-call" and name.startswith("nd::any::<"):
+            ty = name[len("nd::any::<"):-1]
+            cur = {"ty": ty, "elems": {}, "scalar": None}
+            depth_name = name
+            continue
+        if t == "function-return" and cur is not None and name == depth_name:
+            ty = cur["ty"]
+            m = re.match(r"\[(\w+); (\d+)\]$", ty)
+            if m:
+                eb = SCALAR_BYTES.get(m.group(1), 1)
+                n = int(m.group(2))
+                out = []
+                for i in range(n):
+                    out += cur["elems"].get(i, [0] * eb)
+                vals.append(out)
+            else:
+                nb = SCALAR_BYTES.get(ty, 8)
+                vals.append(cur["scalar"] if cur["scalar"] is not None else [0] * nb)
+            cur = None
+            continue
+        if t == "assignment" and cur is not None:
+            f = st.get("sourceLocation", {}).get("function", "")
+            if not f.startswith("nd::any::<"):
+                continue
+            lhs = st.get("lhs", "")
+            v = st.get("value", {})
+            ty = cur["ty"]
+            m = re.match(r"\[(\w+); (\d+)\]$", ty)
+            mi = re.match(r"var_\d+\[(\d+)\]$", lhs)
+            if m and mi:
+                cur["elems"][int(mi.group(1))] = _val_bytes(v, SCALAR_BYTES.get(m.group(1), 1))
+            elif m and re.match(r"var_\d+$", lhs) and v.get("name") == "array":
+                for i, e in enumerate(v.get("elements", [])):
+                    ev = e.get("value", e)
+                    cur["elems"][i] = _val_bytes(ev, SCALAR_BYTES.get(m.group(1), 1))
+            elif not m and re.match(r"var_\d+$", lhs):
+                cur["scalar"] = _val_bytes(v, SCALAR_BYTES.get(ty, 8))
+    return vals
+
+
+def trace_failed_property(r, logdir):
+    """Re-run the logged cbmc command with --trace on the first failed property."""
+    text = open(r.log, errors="replace").read()
+    m = re.findall(r"\[Kani\] Running: `(cbmc .*?)`", text)
+    if not m or not r.failed:
+        return None
+    base = m[-1].split()
+    out = []
+    for c in r.failed[:3]:
+        cmd = [x for x in base if x not in ("--json-ui",)]
+        # drop "--verbosity 9"
+        if "--verbosity" in cmd:
+            i = cmd.index("--verbosity")
+            del cmd[i:i + 2]
+        cmd += ["--property", c["name"], "--trace", "--json-ui", "--verbosity", "4"]
+        name = os.path.basename(r.log)[:-4] + "__trace_" + re.sub(r"\W+", "_", c["name"])[-60:] + ".json"
+        path = os.path.join(logdir, name)
+        try:
+            with open(path, "w") as f:
+                subprocess.run(cmd, stdout=f, stderr=subprocess.DEVNULL, timeout=max(300, r.ob["cap_s"]))
+            tr = _find_trace(json.load(open(path)))
+        except Exception as e:  # noqa
+            tr = None
+        if tr:
+            out.append({"kind": "assertion", "desc": c["description"], "vals": extract_trace_values(tr)})
+            try:
+                os.remove(path)
+            except OSError:
+                pass
+    return out
 
 
 RE_SUMMARY = re.compile(r"\*\* (\d+) of (\d+) failed")
@@ -126,25 +248,76 @@ class Result(object):
         self.playback = []
         self.functions = []
         self.stubs = 0
+        self.peak_rss_mb = 0
 
 
-def run_obligation(ob, slot_dir, logdir):
+CHILD_GROUPS = set()
+
+
+def kill_children(*_a):
+    for g in list(CHILD_GROUPS):
+        try:
+            os.killpg(g, 9)
+        except Exception:
+            pass
+    if _a:
+        os._exit(2)
+
+
+def group_rss_kb(pgid):
+    try:
+        out = subprocess.run(["ps", "-eo", "pgid,rss"], stdout=subprocess.PIPE, text=True).stdout
+    except Exception:
+        return 0
+    tot = 0
+    for line in out.splitlines()[1:]:
+        a = line.split()
+        if len(a) == 2 and a[0] == str(pgid):
+            tot += int(a[1])
+    return tot
+
+
+def run_obligation(ob, slot_dir, logdir, playback=False):
     r = Result(ob)
-    name = ob["harness"].replace("::", "__") + ob.get("tag", "")
+    name = ob["harness"].replace("::", "__") + ob.get("tag", "") + ("__playback" if playback else "")
     r.log = os.path.join(logdir, name + ".log")
-    cmd = kani_cmd(ob, slot_dir)
+    cmd = kani_cmd(ob, slot_dir, playback)
     env = base_env()
     for k, v in ob.get("env", {}).items():
         env[k] = str(v)
-    mem_kb = int(ob["mem_gb"] * 1024 * 1024)
-    shell = "ulimit -v %d; exec timeout -k 10 %d %s" % (
-        mem_kb, ob["cap_s"], " ".join("'%s'" % c for c in cmd))
+    shell = "exec timeout -k 10 %d %s" % (ob["cap_s"], " ".join("'%s'" % c for c in cmd))
     t0 = time.time()
+    peak = 0
+    killed_mem = False
     with open(r.log, "w") as f:
         f.write("# " + shell + "\n")
         f.flush()
-        p = subprocess.run(["bash", "-c", shell], cwd=CRATE, env=env, stdout=f,
-                           stderr=subprocess.STDOUT)
+        p = subprocess.Popen(["bash", "-c", shell], cwd=CRATE, env=env, stdout=f,
+                             stderr=subprocess.STDOUT, start_new_session=True)
+        CHILD_GROUPS.add(p.pid)
+        # memory watchdog: RSS of the whole process group, hard cap per obligation
+        while True:
+            try:
+                p.wait(timeout=2)
+                break
+            except subprocess.TimeoutExpired:
+                pass
+            rss = group_rss_kb(p.pid)
+            peak = max(peak, rss)
+            ob["_rss_now"] = rss
+            if rss > ob["mem_gb"] * 1024 * 1024:
+                killed_mem = True
+                try:
+                    os.killpg(p.pid, 9)
+                except Exception:
+                    pass
+    ob["_rss_now"] = 0
+    try:
+        os.killpg(p.pid, 9)  # stray grandchildren
+    except Exception:
+        pass
+    CHILD_GROUPS.discard(p.pid)
+    r.peak_rss_mb = peak // 1024
     r.wall = time.time() - t0
     text = open(r.log, errors="replace").read()
     r.stubs = len(re.findall(r"^\s+- Stub: ", text, re.M))
@@ -166,9 +339,12 @@ def run_obligation(ob, slot_dir, logdir):
     checks = parse_checks(text)
     r.failed = [c for c in checks if c["status"] == "FAILURE"]
     r.unsat_covers = [c for c in checks if c["status"] in ("UNSATISFIABLE", "UNREACHABLE")
-                      and ".cover." in c["name"]]
+                      and ".cover" in c["name"]]
     r.playback = parse_playback(text)
-    if p.returncode == 124 or p.returncode == 137:
+    if killed_mem:
+        r.status = "OUT-OF-MEMORY"
+        r.detail = "RSS above the %d GB cap" % ob["mem_gb"]
+    elif p.returncode == 124 or p.returncode == 137:
         r.status = "TIMEOUT"
         r.detail = "cap %ds" % ob["cap_s"]
     elif "error: could not compile" in text or "error[E" in text:
@@ -176,12 +352,19 @@ def run_obligation(ob, slot_dir, logdir):
         mm = re.search(r"^error.*$", text, re.M)
         r.detail = mm.group(0) if mm else ""
     elif "VERIFICATION:- SUCCESSFUL" in text:
-        if r.unsat_covers:
+        # vacuity: the end of the harness must be reachable, plus the covers the plan requires
+        unsat = [c["description"] for c in r.unsat_covers]
+        need = ["reach_end"] + list(ob.get("need_covers", []))
+        missing = [n for n in need if n in unsat]
+        if ob.get("all_covers", True) and ob.get("allow_unsat") is not None:
+            missing += [u for u in unsat if u not in ob["allow_unsat"] and u not in missing]
+        elif ob.get("all_covers", True) and ob.get("allow_unsat") is None:
+            missing += [u for u in unsat if u not in missing]
+        if r.covers[1] == 0:
+            missing.append("no cover statement in harness")
+        if missing:
             r.status = "VACUOUS"
-            r.detail = "covers not satisfied: " + "; ".join(c["description"] for c in r.unsat_covers)
-        elif ob.get("covers_min", 1) > r.covers[0]:
-            r.status = "VACUOUS"
-            r.detail = "only %d covers satisfied" % r.covers[0]
+            r.detail = "covers not satisfied: " + "; ".join(missing)
         else:
             r.status = "SUCCESSFUL"
     elif "VERIFICATION:- FAILED" in text:
@@ -269,6 +452,11 @@ def native_replay(harness, vals, profile, logdir, out_path, env_extra=None):
 # ---------------------------------------------------------------- main
 
 def main(argv):
+    import signal
+    import atexit
+    atexit.register(kill_children)
+    signal.signal(signal.SIGTERM, kill_children)
+    signal.signal(signal.SIGINT, kill_children)
     if len(argv) < 2:
         print(__doc__)
         return 2
@@ -308,6 +496,13 @@ def main(argv):
     rnd.shuffle(obs)
     obs.sort(key=lambda o: -o.get("est_s", 60))
 
+    os.makedirs(os.path.join(WORK, "tgt"), exist_ok=True)
+    inst = open(os.path.join(WORK, "tgt", "%s_%s.instance.lock" % (pid, tier)), "w")
+    try:
+        fcntl.flock(inst, fcntl.LOCK_EX | fcntl.LOCK_NB)
+    except OSError:
+        log("another run of %s/%s is in progress; waiting for it" % (pid, tier))
+        fcntl.flock(inst, fcntl.LOCK_EX)
     logdir = os.path.join(WORK, "logs", pid + "_" + tier)
     shutil.rmtree(logdir, ignore_errors=True)
     os.makedirs(logdir, exist_ok=True)
@@ -343,8 +538,7 @@ def main(argv):
             write_evidence(pid, tier, seed, spec, [], time.time() - t0, 0,
                            note="harness crate failed to compile against /repo: " + " | ".join(errs))
             return 2
-        max_mem = max(o["mem_gb"] for o in obs)
-        par = max(1, min(len(obs), int(TOTAL_MEM_GB // max_mem), plan.MAX_PAR))
+        par = max(1, min(len(obs), plan.MAX_PAR))
         slots = []
         for k in range(par):
             s = os.path.join(WORK, "tgt", "%s_%s_slot%d" % (pid, tier, k))
@@ -359,17 +553,43 @@ def main(argv):
     q = list(obs)
     qlock = threading.Lock()
 
+    running = []
+
+    def mem_free_gb():
+        try:
+            for line in open("/proc/meminfo"):
+                if line.startswith("MemAvailable:"):
+                    return int(line.split()[1]) / 1024.0 / 1024.0
+        except Exception:
+            pass
+        return 8.0
+
     def worker(slot):
         while True:
+            ob = None
             with qlock:
                 if not q:
                     return
-                ob = q.pop(0)
+                # memory-aware admission: estimated need of the next job must fit into what is
+                # available now minus what running jobs are still expected to grow by
+                need = q[0].get("mem_est_gb", 4)
+                reserve = sum(max(0.0, o.get("mem_est_gb", 4) - o.get("_rss_now", 0) / 1048576.0) for o in running)
+                if not running or mem_free_gb() - reserve - 4 >= need:
+                    ob = q.pop(0)
+                    running.append(ob)
+            if ob is None:
+                time.sleep(3)
+                continue
             r = run_obligation(ob, slot, logdir)
+            if r.status == "FAILED":
+                pb = trace_failed_property(r, logdir)
+                if pb:
+                    r.playback = pb
             with qlock:
+                running.remove(ob)
                 results.append(r)
-                log("  [%s] %-55s %7.1fs checks=%d covers=%d/%d %s"
-                    % (r.status, ob["harness"], r.wall, r.checks, r.covers[0], r.covers[1], r.detail))
+                log("  [%s] %-55s %7.1fs rss=%dMB checks=%d covers=%d/%d %s"
+                    % (r.status, ob["harness"] + ob.get("tag", ""), r.wall, r.peak_rss_mb, r.checks, r.covers[0], r.covers[1], r.detail))
 
     threads = [threading.Thread(target=worker, args=(s,)) for s in slots]
     for t in threads:
@@ -388,7 +608,8 @@ def main(argv):
         if r.status == "SUCCESSFUL":
             continue
         if r.status != "FAILED":
-            inconclusive += 1
+            if not r.ob.get("expect_fail"):
+                inconclusive += 1
             continue
         # counterexample: replay natively
         verdict = handle_failure(pid, r, known, replay_dir, logdir, known_hits)
@@ -487,6 +708,8 @@ def handle_failure(pid, r, known, replay_dir, logdir, known_hits):
 
 def write_evidence(pid, tier, seed, spec, results, wall, violations, note=None):
     os.makedirs(os.path.join(VERIF, "evidence"), exist_ok=True)
+    witnesses = [r for r in results if r.ob.get("expect_fail")]
+    results = [r for r in results if not r.ob.get("expect_fail")]
     discharged = [r for r in results if r.status == "SUCCESSFUL"]
     samples = []
     obl = []
@@ -512,6 +735,7 @@ def write_evidence(pid, tier, seed, spec, results, wall, violations, note=None):
             "symex_s": round(r.symex_s, 2),
             "solver_s": round(r.solver_s, 2),
             "wall_s": round(r.wall, 1),
+            "peak_rss_mb": r.peak_rss_mb,
             "functions_encoded": r.functions[:60],
         })
         # cover witnesses produced by the solver are real inputs the query reached
@@ -541,6 +765,8 @@ def write_evidence(pid, tier, seed, spec, results, wall, violations, note=None):
             "total_covers_satisfied": sum(r.covers[0] for r in results),
             "solver_s_total": round(sum(r.solver_s for r in results), 1),
             "per_obligation": obl,
+            "finding_witnesses": [{"harness": r.ob["harness"], "status": r.status, "claim": r.ob.get("claim", ""),
+                                   "note": "expected to FAIL while the recorded finding exists"} for r in witnesses],
             "samples": samples[:12],
             "exhaustive": False,
         },
